@@ -425,6 +425,9 @@ class AgentExecutingComponent(rpu.AgentComponent):
         if td['environment']:
             ret += '\n# task env settings\n'
             for key, val in td['environment'].items():
+                # the value is placed in double quotes (which keeps `$VAR`
+                # expansion available), so embedded double quotes are escaped
+                val  = str(val).replace('"', '\\"')
                 ret += 'export %s="%s"\n' % (key, val)
 
         return ret
